@@ -99,11 +99,15 @@ func hashOf(c *boc.Cell) string {
 // serEvents serialises root with all 8 option combinations through every entry point and records, per
 // combination, the bytes, the bytes obtained from an independently built equal DAG, and the parse-back.
 func serEvents(w *ev.Writer, src string, root, twin *boc.Cell, rng *rand.Rand, allAPIs bool) {
+	serEventsOpt(w, src, root, twin, rng, allAPIs, []int{0, 1, 2, 3, 4, 5, 6, 7})
+}
+
+func serEventsOpt(w *ev.Writer, src string, root, twin *boc.Cell, rng *rand.Rand, allAPIs bool, combos []int) {
 	t := cells.Project([]*boc.Cell{root})
 	if t.Cyclic {
 		return
 	}
-	for combo := 0; combo < 8; combo++ {
+	for _, combo := range combos {
 		idx, crc, cache := combo&1 != 0, combo&2 != 0, combo&4 != 0
 		var b, b2 []byte
 		var err, err2 error
@@ -202,6 +206,29 @@ func DriveC01(w *ev.Writer, o Opts) {
 			continue
 		}
 		serEvents(w, fmt.Sprintf("rand:%d", len(t.Cells)), a[0], b[0], rng, true)
+	}
+	// cell counts exactly at the reference-width boundaries (the header's counters and every reference change width there)
+	for bi, n := range []int{255, 256, 257} {
+		if (bi+1)%o.Shards == o.Shard {
+			t := cells.WideTable(n)
+			a, err1 := cells.Build(t, true)
+			b, err2 := cells.Build(t, true)
+			if err1 == nil && err2 == nil {
+				serEvents(w, fmt.Sprintf("boundary:%d", n), a[0], b[0], rng, false)
+			}
+		}
+	}
+	if o.thorough() {
+		for bi, n := range []int{65535, 65536, 65537} {
+			if (bi+4)%o.Shards == o.Shard {
+				t := cells.WideTable(n)
+				a, err1 := cells.Build(t, true)
+				b, err2 := cells.Build(t, true)
+				if err1 == nil && err2 == nil {
+					serEventsOpt(w, fmt.Sprintf("boundary:%d", n), a[0], b[0], rng, false, []int{0, 7})
+				}
+			}
+		}
 	}
 	if o.Shard == 0 {
 		for _, n := range []int{1, 2, 1024, 1025, 1026} {
